@@ -21,7 +21,9 @@ while IFS="$(printf '\t')" read -r name prop note; do
     git -C "$SCRATCH" apply "$VERIF_DIR/mutants/$name.patch" || { echo "$name: patch does not apply"; missed=$((missed+1)); continue; }
     tests="-"
     if [ "$WITH_TESTS" = 1 ]; then
-        if (cd "$SCRATCH" && CARGO_NET_OFFLINE=true cargo test --workspace --no-fail-fast --offline >"$VERIF_DIR/sim/target/sens/$name.tests" 2>&1); then tests="suite-green"; else tests="suite-RED"; fi
+        # a mutant may make a test loop or allocate without bound: bound both
+        if (cd "$SCRATCH" && ulimit -v 8388608 && CARGO_NET_OFFLINE=true timeout -k 5 240 cargo test --workspace --no-fail-fast --offline >"$VERIF_DIR/sim/target/sens/$name.tests" 2>&1); then tests="suite-green"; else tests="suite-RED"; fi
+        pkill -f "$SCRATCH/target/debug/deps" 2>/dev/null
     fi
     t0=$(date +%s)
     SIM_NO_EVIDENCE=1 "$VERIF_DIR/check" "$prop" quick >"$VERIF_DIR/sim/target/sens/$name.out" 2>&1
